@@ -18,8 +18,8 @@ import typing
 
 VERIF = pathlib.Path(__file__).resolve().parent.parent
 REPO = pathlib.Path(os.environ.get("VERIF_REPO", "/repo"))
-EVIDENCE_DIR = VERIF / "evidence"
-REPLAY_DIR = VERIF / "replays"
+EVIDENCE_DIR = pathlib.Path(os.environ.get("VF_EVIDENCE_DIR", VERIF / "evidence"))
+REPLAY_DIR = pathlib.Path(os.environ.get("VF_REPLAY_DIR", VERIF / "replays"))
 FINDINGS_FILE = VERIF / "known_findings.json"
 
 
@@ -122,8 +122,8 @@ class Ctx:
 
     # ------------------------------------------------------------------ finish
     def finish(self, harness_error: typing.Optional[str] = None) -> int:
-        REPLAY_DIR.mkdir(exist_ok=True)
-        EVIDENCE_DIR.mkdir(exist_ok=True)
+        REPLAY_DIR.mkdir(parents=True, exist_ok=True)
+        EVIDENCE_DIR.mkdir(parents=True, exist_ok=True)
         violations = 0
         known_hit = []
         viol_list = []
@@ -194,6 +194,9 @@ class Ctx:
 # Hypothesis driver: collect all failing signatures during generation, then shrink one per unknown signature.
 # ---------------------------------------------------------------------------------------------------------------------
 
+MAX_SHRINKS = 3
+SHRINK_DEADLINE_S = 600  # no new shrink is started after this much wall time (a budget, never a verdict)
+
 CheckFn = typing.Callable[[typing.Any], typing.List[typing.Tuple[str, str]]]
 
 
@@ -220,7 +223,7 @@ def explore(
     check: CheckFn,
     max_examples: int,
     to_json: typing.Callable[[typing.Any], typing.Any] = lambda c: c,
-    shrink_budget: int = 2000,
+    shrink_budget: int = 300,
     seed_offset: int = 0,
 ):
     """
@@ -242,7 +245,11 @@ def explore(
 
     collect()
 
-    for sig in [s for s in ctx.failures if not ctx.is_known(s)]:
+    if os.environ.get("VF_NO_SHRINK"):
+        return
+    for sig in [s for s in ctx.failures if not ctx.is_known(s)][:MAX_SHRINKS]:
+        if time.time() - ctx.t0 > SHRINK_DEADLINE_S:
+            break  # keep the unshrunk (smallest seen) reproduction
         last: dict = {}
         find = _make_find(strategy, check, to_json, sig, last, seed, max_examples + shrink_budget)
         ctx.counting = False
